@@ -6,12 +6,22 @@ s_state with ERROR_FS set/clear) and TLC validates the event stream against spec
 CrashInvariant on every crash image of every prefix (Trace_ResizeCrash).  The thorough tier additionally rebuilds
 sampled crash images from the recorded payloads and confirms on the real e2fsck that they are not treated as clean.
 
-Main clause: trace line {st0, request, exit, reported size, st1} validated by Trace_Tools (Consistent(st1),
-Tree(st1) = Tree(st0), Blocks(st1) = reported; refused => unchanged or error flag)."""
+Main clause: one trace line per run {request, exit, reported size, facts} validated by Trace_Resize: e2fsck -fn, Ext4Abs!Consistent on the
+independent reader's projection of the result, Ext4Abs!TreeEq(before, after) (lib/absstate.py: both decided by TLC), size = reported;
+refused => unchanged or error flag.
+
+Model and universe: spec/Resize.tla states per object what a run must do (blocks_to_move, inode_scan_and_fix, move_itables,
+fix_resize_inode and the device program of the run) on an abstract filesystem, model-checked over every small shape x target, with
+the literal faulty variants (Dev*) as negative controls.  ResizeOps!Marks names the branch boundaries of these algorithms; the
+catalogue (every mark of the model universe, one lightest witness each, written by Emit_Resize) is REALISED here: gen/c08_shapes.py
+builds an image per witness with mke2fs + debugfs of the tree under test, the facts of the image are read through the independent
+reader and TLC decides (guard line, before resize2fs runs) that the image exercises the boundary it was built for; at the end TLC
+decides that every catalogue element was realised by a successful, fully evaluated run (CHECK-BROKEN otherwise)."""
 import os, sys, json, random, shutil, hashlib, re, struct, concurrent.futures as cf
 from common import VERIF, fast_tmp, seed, die_broken, NPROC, tool_env
 from common import run as sh
-import build, tlc as T, tracecheck, sbparse, mkbase
+import build, tlc as T, tracecheck, sbparse, mkbase, absstate
+import ext4read, c08_shapes
 from evidence import Evidence, Verdict
 
 PID = "C08"
@@ -51,6 +61,7 @@ def classify(trace_path, blob_path, img0, img_path, old_fs_bytes):
     blobs = open(blob_path, "rb").read() if os.path.exists(blob_path) else b""
     last_flag = 1 if (struct.unpack_from("<H", shadow, STATE_OFF)[0] & 2) else 0
     pend_flag = None
+    fs_end = old_fs_bytes
     for ln in open(trace_path):
         d = json.loads(ln)
         e = d["e"]
@@ -70,14 +81,20 @@ def classify(trace_path, blob_path, img0, img_path, old_fs_bytes):
             out_changed = False
             a, b = off, off + ln_
             # bytes past the end of the filesystem the on-disk superblock describes are not part of it (main.c extends the
-            # backing file by writing one byte at the new end; new groups are initialised there before the size changes)
-            b = min(b, old_fs_bytes)
+            # backing file by writing one byte at the new end; new groups are initialised there before the size changes).
+            # Once a superblock write that announces a larger size has been issued (move_itables flushes new_fs in the middle of a
+            # run) the filesystem may extend to that size on the medium: the end follows the largest size issued so far
+            b = min(b, fs_end)
             for (x, y) in ((a, min(b, SB_LO)), (max(a, SB_HI), b)):      # b already clipped to the old filesystem end
                 if x < y and before[x - off:y - off] != data[x - off:y - off]:
                     out_changed = True
             if out_changed:
                 ev.append({"e": "w", "k": "out", "flag": 0, "err0": 0, "wi": len(writes) - 1})
-            if a <= STATE_OFF and b >= STATE_OFF + 2:
+            if off < SB_HI and off + ln_ > SB_LO:
+                sbn = sbparse.parse_sb(bytes(shadow[SB_LO:SB_HI]))
+                if sbn and sbn.get("magic_ok", True) and 0 < sbn["blocks"] * sbn["bs"] <= (1 << 40):
+                    fs_end = max(fs_end, sbn["blocks"] * sbn["bs"])
+            if off <= STATE_OFF and off + ln_ >= STATE_OFF + 2:
                 st = struct.unpack_from("<H", data, STATE_OFF - off)[0]
                 k = "on" if st & 2 else "off"
                 pend_flag = 1 if st & 2 else 0
@@ -93,7 +110,7 @@ def classify(trace_path, blob_path, img0, img_path, old_fs_bytes):
 
 
 def one(args):
-    b, prof, imgsrc, kind, val, work, idx, want_crash = args
+    b, prof, imgsrc, kind, val, work, idx, want_crash, cat = args
     env = tool_env(b)
     img = os.path.join(work, "r%d.img" % idx)
     shutil.copyfile(imgsrc, img)
@@ -104,14 +121,16 @@ def one(args):
     e2 = dict(env, LD_PRELOAD=IOTRACE, VERIF_IOTRACE_TARGET=os.path.basename(img), VERIF_IOTRACE_OUT=tr, VERIF_IOTRACE_BLOBS=bl)
     if kind == "-M":
         cmd = [rz, "-M", img]
+    elif kind in ("conv64", "conv32"):
+        cmd = [rz, "-b" if kind == "conv64" else "-s", img]
     elif kind == "refuseS":
         cmd = [rz, "-S", "8", img, str(val)]
     else:
         cmd = [rz, img, str(val)]
     rc, out, err = sh(cmd, env=e2, timeout=300)
     txt = (out + err).decode("utf8", "replace")
-    res = {"profile": prof, "kind": kind, "request": "-M" if kind == "-M" else ("-S 8 %d" % val if kind == "refuseS" else str(val)), "rc": rc, "msg": txt[-300:], "img": img, "img0_sha": hashlib.sha256(img0).hexdigest(),
-           "old_blocks": sb0["blocks"]}
+    res = {"profile": prof, "kind": kind, "request": "-M" if kind == "-M" else ("-b" if kind == "conv64" else "-s" if kind == "conv32" else "-S 8 %d" % val if kind == "refuseS" else str(val)), "rc": rc, "msg": txt[-300:], "img": img, "img0_sha": hashlib.sha256(img0).hexdigest(),
+           "old_blocks": sb0["blocks"], "source": prof, "val": val, "cat": cat}
     m = re.search(r"is now (\d+) \(\d+k\) blocks long", txt)
     res["reported"] = int(m.group(1)) if m else -1
     res["nothing"] = 1 if "Nothing to do" in txt or "already" in txt else 0
@@ -150,6 +169,12 @@ def one(args):
     res["fsck_out"] = o2.decode("utf8", "replace")[-300:] if r2 else ""
     res["consistent"] = -1
     res["tree_equal"] = -1
+    # projection of the result by the independent reader (successful runs only; evaluated by TLC in main_clause)
+    if rc == 0 and res["reported"] > 0:
+        try:
+            res["_P1"] = ext4read.project(img)
+        except Exception as e:            # a reader crash is a limitation of the observer, never a verdict
+            res["_P1"] = {"fatal": "reader exception: %r" % (e,)}
     return res
 
 
@@ -200,13 +225,132 @@ def crash_images(b, r, work, rng, maxn=6):
     return bad
 
 
-def main_clause(b, results, work):
-    """Plug for the independent reader: sets per result the fields the Tools contract needs.  Returns True if evaluated."""
-    try:
-        import ext4read, absstate
-    except ImportError:
-        return False
-    return False        # wired in once the reader is integrated (see checks/c08_main in a later commit)
+def reader_unknown(P):
+    """the reader could not produce a state Ext4Abs can judge: unknown, never a verdict"""
+    if "fatal" in P or "reader_err" in P:
+        return str(P.get("fatal") or P.get("reader_err"))[:200]
+    if P.get("unsupported"):
+        return "unsupported: %s" % (P["unsupported"],)
+    if P.get("short_reads"):
+        return "short reads: %s" % (P["short_reads"],)
+    return None
+
+
+def main_clause(sources, results, ev):
+    """Independent oracle of the main clause: Ext4Abs!Consistent on the projection of every successful result and
+    Ext4Abs!TreeEq(before, after), evaluated by TLC (lib/absstate.py), one TLC process per source image.
+    Sets r["consistent"], r["tree_equal"] (1 / 0 / -1 unknown) and r["failed"]."""
+    groups = {}
+    for i, r in enumerate(results):
+        if "_P1" in r:
+            groups.setdefault(r["source"], []).append(i)
+    unknown = []
+
+    def batch(item):
+        srcname, idxs = item
+        P0 = sources[srcname]["P0"]
+        u0 = reader_unknown(P0)
+        states, owners = [P0], []
+        for i in idxs:
+            u1 = reader_unknown(results[i]["_P1"])
+            if u0 or u1:
+                unknown.append({"source": srcname, "request": results[i]["request"], "why": u0 or u1})
+                continue
+            states.append(results[i]["_P1"]); owners.append(i)
+        if not owners:
+            return 0.0
+        st = {}
+        try:
+            verd, eq = absstate.evaluate(states, pairs=[(0, k + 1) for k in range(len(owners))], stats=st)
+        except (absstate.AbsStateError, ValueError) as e:
+            die_broken("TLC could not evaluate the projections of %s: %s" % (srcname, str(e)[-1200:]))
+        if not verd[0]["consistent"]:
+            # the image before the run is not consistent in the reader's eyes although e2fsck -fn accepted it: the reader
+            # (or Ext4Abs) does not cover this image; its results are unknown rather than verdicts
+            for i in owners:
+                unknown.append({"source": srcname, "request": results[i]["request"], "why": "source image: " + ",".join(verd[0]["failed"])})
+            return st.get("tlc_wall", 0.0)
+        for k, i in enumerate(owners):
+            results[i]["consistent"] = 1 if verd[k + 1]["consistent"] else 0
+            results[i]["failed"] = verd[k + 1]["failed"]
+            results[i]["tree_equal"] = 1 if eq[k] else 0
+        return st.get("tlc_wall", 0.0)
+    with cf.ThreadPoolExecutor(max_workers=max(2, min(8, NPROC // 2))) as ex:
+        walls = list(ex.map(batch, sorted(groups.items())))
+    ev.cov["main_clause_tlc_runs"] = len(walls)
+    ev.cov["main_clause_tlc_wall_s"] = round(sum(walls), 1)
+    ev.cov["main_clause_unknown"] = unknown[:40]
+    return sum(1 for r in results if r["consistent"] != -1)
+
+
+MC_DEVS = (("MC_Resize_DevUninitSkipOffByOne.cfg", "NoBlockLost"), ("MC_Resize_DevBoundaryInodeMoved.cfg", "InodesBijective"),
+           ("MC_Resize_DevFlagClearedEarly.cfg", "CrashInvariant"))
+
+
+def model_part(ev, vd, work):
+    """Model checking of ResizeCrash and Resize (with the negative controls) and the boundary catalogue.  Returns the catalogue."""
+    catp = os.path.join(work, "resize_catalogue.json")
+    jobs = [("crash", os.path.join(SPEC, "ResizeCrash.tla"), "MC_ResizeCrash.cfg", {}), ("crash_bad", os.path.join(SPEC, "ResizeCrash.tla"), "MC_ResizeCrash_bad.cfg", {}),
+            ("resize", os.path.join(SPEC, "Resize.tla"), "MC_Resize.cfg", {}), ("emit", os.path.join(SPEC, "Emit_Resize.tla"), "Emit_Resize.cfg", {"OUT": catp})]
+    jobs += [("dev:" + inv, os.path.join(SPEC, "Resize.tla"), cfg, {}) for cfg, inv in MC_DEVS]
+    with cf.ThreadPoolExecutor(max_workers=4) as ex:
+        rs = list(ex.map(lambda j: T.tlc(j[1], os.path.join(SPEC, j[2]), workers=2, timeout=600, env=j[3], xmx="3g"), jobs))
+    for (name, mod, cfg, _), r in zip(jobs, rs):
+        if name in ("crash", "resize"):
+            ev.add_tlc(r, {"crash": "ResizeCrash protocol: CrashInvariant", "resize": "Resize: NoBlockLost, InodesBijective, CrashInvariant, EndsClean over every small shape x target"}[name])
+            if r.violated:
+                vd.violation("model", "%s: %s violated" % (cfg, r.violated), {"tlc": r.out[-2000:]})
+            elif not r.ok:
+                die_broken("TLC failed on %s: %s\n%s" % (cfg, r.error, r.out[-1200:]))
+        elif name == "crash_bad":
+            if not r.violated:
+                die_broken("vacuity: the protocol mutant (work before the flag is flushed) does not violate CrashInvariant")
+        elif name == "emit":
+            if not r.ok or not os.path.exists(catp):
+                die_broken("TLC could not enumerate the boundary catalogue (Emit_Resize): %s\n%s" % (r.error, r.out[-1500:]))
+        else:
+            want = name.split(":", 1)[1]
+            if r.violated != want:
+                die_broken("vacuity: the literal faulty variant of %s does not violate %s (TLC: %s %s)" % (cfg, want, r.violated, r.error))
+            ev.cov.setdefault("negative_controls", []).append({"cfg": cfg, "violates": want})
+    return json.load(open(catp))["catalogue"]
+
+
+def run_lines(lines, work, name):
+    """Trace_Resize on all lines in ONE TLC process (the coverage set `seen` is a variable of the trace specification)."""
+    p = os.path.join(work, name)
+    with open(p, "w") as f:
+        for ln in lines:
+            f.write(ln + "\n")
+    r = T.tlc(os.path.join(SPEC, "Trace_Resize.tla"), os.path.join(SPEC, "Trace_Resize.cfg"), workers=1, timeout=900, env={"TRACE": p}, xmx="4g")
+    if not (r.rc == 0 and r.violated is None and r.error is None):
+        die_broken("TLC failed on Trace_Resize (%s): %s\n%s" % (name, r.error or r.violated, r.out[-1500:]))
+    out = {"bad": [int(x) - 1 for x in re.findall(r'<<"BADLINE", (\d+)>>', r.out)],
+           "badpred": [int(x) - 1 for x in re.findall(r'<<"BADPRED", (\d+)>>', r.out)],
+           "badshape": [(int(x) - 1, c) for x, c in re.findall(r'<<"BADSHAPE", (\d+), "([^"]*)">>', r.out)],
+           "missing": re.findall(r'<<"MISSING", (\{[^}]*\})>>', r.out),
+           "marks": {int(x) - 1: re.findall(r'"([^"]+)"', m) for x, m in re.findall(r'<<"MARKS", (\d+), (\{[^}]*\})>>', r.out)},
+           "distinct": r.distinct, "generated": r.generated}
+    return out
+
+
+def line_of(r):
+    return json.dumps({"e": "resize", "rc": r["rc"] if r["rc"] in (0, 1) else 2, "reported": r["reported"], "nothing": r["nothing"], "new_blocks": r["new_blocks"],
+                       "errflag": r["errflag"], "unchanged": r["unchanged"], "fsck": r["fsck"], "consistent": r["consistent"], "tree_equal": r["tree_equal"],
+                       "cat": r.get("cat", ""), "hasf": 1 if r.get("f") else 0, "f": r.get("f") or {}, "t": r.get("t") or {}, "moved": r.get("moved", [])})
+
+
+def attach_facts(sources, r):
+    """facts of the image before the run + the request as resize2fs understood it (reported size) + inode tables that changed place"""
+    F = sources[r["source"]].get("F")
+    if F is None:
+        return
+    kind = r["kind"] if r["kind"] in ("conv64", "conv32") else "size"
+    nb = r["reported"] if (r["rc"] == 0 and r["reported"] > 0) else (r["val"] if kind == "size" and r["kind"] != "-M" else F.rec["blocks"])
+    r["f"], r["t"] = F.rec, F.target(kind, nb)
+    P0, P1 = sources[r["source"]]["P0"], r.get("_P1")
+    if P1 and "gd" in P1 and "gd" in P0:
+        r["moved"] = [k + 1 for k in range(min(len(P0["gd"]), len(P1["gd"]))) if P0["gd"][k]["it"] != P1["gd"][k]["it"]]
 
 
 def run(tier):
@@ -220,32 +364,79 @@ def run(tier):
             die_broken(str(e))
         if not os.path.exists(IOTRACE):
             sh(["make", "-C", os.path.join(VERIF, "harness"), "-s", "all"])
-        for cfg, label in (("MC_ResizeCrash.cfg", "ResizeCrash protocol: CrashInvariant"),):
-            r = T.tlc(os.path.join(SPEC, "ResizeCrash.tla"), os.path.join(SPEC, cfg), workers=2, timeout=300)
-            ev.add_tlc(r, label)
-            if r.violated:
-                vd.violation("model", "ResizeCrash: %s violated" % r.violated, {"tlc": r.out[-2000:]})
-            elif not r.ok:
-                die_broken("TLC failed on ResizeCrash: %s" % r.error)
-        rb = T.tlc(os.path.join(SPEC, "ResizeCrash.tla"), os.path.join(SPEC, "MC_ResizeCrash_bad.cfg"), workers=2, timeout=300)
-        if not rb.violated:
-            die_broken("vacuity: the protocol mutant (work before the flag is flushed) does not violate CrashInvariant")
+        catalogue = model_part(ev, vd, work)
         basedir, meta = mkbase.base_images(b)
         rng = random.Random(seed())
         env = tool_env(b)
         rz = os.path.join(b, "resize", "resize2fs")
-        jobs = []
+        # ---- sources: base profiles + one image per catalogue element (built here, guarded through the reader before any run)
+        sources = {}
         profs = [p for p, i in sorted(meta.items()) if i["ok"]]
         skipped = [p for p, i in meta.items() if not i["ok"]]
+        for p in profs:
+            sources[p] = {"img": os.path.join(basedir, p + ".img")}
+        cat_rows = sorted(catalogue, key=lambda r: r["mark"])
+        seeds = [rng.random() for _ in cat_rows]
+
+        def build_cat(a):
+            row, sd = a
+            name = "cat:" + row["mark"]
+            path = os.path.join(work, "cat_%s.img" % row["mark"].replace("/", "_"))
+            try:
+                req = c08_shapes.build(b, row, path, random.Random(sd))
+            except RuntimeError as e:
+                return name, None, str(e)
+            return name, {"img": path, "req": req, "mark": row["mark"], "build_seed": sd}, None
+        with cf.ThreadPoolExecutor(max_workers=NPROC) as ex:
+            for name, src, err in ex.map(build_cat, zip(cat_rows, seeds)):
+                if err:
+                    die_broken("catalogue element %s could not be built: %s" % (name, err))
+                sources[name] = src
+
+        def proj(name):
+            try:
+                P = ext4read.project(sources[name]["img"])
+            except Exception as e:
+                P = {"fatal": "reader exception: %r" % (e,)}
+            return name, P
+        with cf.ThreadPoolExecutor(max_workers=NPROC) as ex:
+            for name, P in ex.map(proj, sorted(sources)):
+                sources[name]["P0"] = P
+                if reader_unknown(P) is None or ("fatal" not in P and "gd" in P and "fixed_list" in P):
+                    try:
+                        sources[name]["F"] = c08_shapes.Facts(P)
+                    except (KeyError, IndexError, TypeError):
+                        pass
+        # vacuity guard: TLC decides that every built image exercises the boundary it was built for, before resize2fs runs
+        glines = []
+        for name in sorted(sources):
+            s_ = sources[name]
+            if "mark" not in s_:
+                continue
+            if "F" not in s_:
+                die_broken("the independent reader cannot read the image built for catalogue element %s: %s" % (s_["mark"], reader_unknown(s_["P0"])))
+            glines.append(json.dumps({"e": "guard", "cat": s_["mark"], "f": s_["F"].rec, "t": s_["F"].target(s_["req"]["kind"], s_["req"]["val"])}))
+        g = run_lines(glines, work, "guard.ndjson")
+        if g["badshape"]:
+            die_broken("vacuity: the image built for catalogue element(s) %s does not have the shape (ResizeOps!Marks on the reader's facts)" % sorted(c for _, c in g["badshape"]))
+        ev.cov["states"] += g["distinct"]; ev.cov["transitions"] += g["generated"]
+        # ---- jobs
+        jobs = []
         idx = 0
         for p in profs:
-            src = os.path.join(basedir, p + ".img")
+            src = sources[p]["img"]
             sb = sbparse.read_primary(src)
             rc, out, err = sh([rz, "-P", src], env=env, timeout=120)
             m = re.search(r"minimum size of the filesystem: (\d+)", (out + err).decode("utf8", "replace"))
             minb = int(m.group(1)) if m else sb["blocks"]
             for kind, val in targets(sb, minb, rng, tier):
-                jobs.append((b, p, src, kind, val, work, idx, tier == "thorough")); idx += 1
+                jobs.append((b, p, src, kind, val, work, idx, tier == "thorough", "")); idx += 1
+            if tier == "thorough":
+                jobs.append((b, p, src, "conv32" if "64bit" in sb.get("features", sb.get("incompat", [])) else "conv64", 0, work, idx, True, "")); idx += 1
+        for name in sorted(sources):
+            s_ = sources[name]
+            if "mark" in s_:
+                jobs.append((b, name, s_["img"], s_["req"]["kind"], s_["req"]["val"], work, idx, tier == "thorough", s_["mark"])); idx += 1
         with cf.ThreadPoolExecutor(max_workers=NPROC) as ex:
             results = list(ex.map(one, jobs))
         # crash clause: trace validation
@@ -258,10 +449,9 @@ def run(tier):
             die_broken("TLC failed on a trace chunk: %s\n%s" % (res["broken"][0]["error"], res["broken"][0]["out_tail"][-1500:]))
         ev.cov["states"] += res["distinct"]; ev.cov["transitions"] += res["generated"]
         nbad = 0
-        todo = [f["behaviour"] for f in res["failures"]]
         seen = set()
-        while todo:
-            bi = todo.pop()
+        for f_ in res["failures"]:
+            bi = f_["behaviour"]
             if bi in seen: continue
             seen.add(bi)
             rej, m, inv, tail, _ = tracecheck.confirm(beh[bi], os.path.join(SPEC, "Trace_ResizeCrash.tla"), os.path.join(SPEC, "Trace_ResizeCrash.cfg"), work)
@@ -271,17 +461,8 @@ def run(tier):
             r = results[owners[bi]]
             vd.violation("crash|%s|%s" % (r["profile"], r["request"]),
                          "resize2fs %s on %s: %s at device event %s (a crash image shows a modification outside the superblock without the error flag, or the stream is not a behaviour of ResizeCrash)" % (r["request"], r["profile"], inv or "trace rejected", m),
-                         {"profile": r["profile"], "request": r["request"], "events": r["events"][: (m or 0) + 3], "tlc_tail": tail[-800:]})
-        # behaviours after a failing one in the same chunk: re-validate (cheap, few chunks)
-        if res["failures"]:
-            rest = [i for i in range(len(beh)) if i not in seen]
-            res2 = tracecheck.validate([beh[i] for i in rest], os.path.join(SPEC, "Trace_ResizeCrash.tla"), os.path.join(SPEC, "Trace_ResizeCrash.cfg"), work, chunk_lines=1)
-            for f in res2["failures"]:
-                bi = rest[f["behaviour"]]
-                r = results[owners[bi]]
-                nbad += 1
-                vd.violation("crash|%s|%s" % (r["profile"], r["request"]), "resize2fs %s on %s: crash invariant / protocol rejected" % (r["request"], r["profile"]),
-                             {"profile": r["profile"], "request": r["request"], "events": r["events"][:40]})
+                         {"profile": r["profile"], "kind": r["kind"], "request": r["request"], "cat": r.get("cat", ""), "witness": next((c for c in catalogue if c["mark"] == r.get("cat")), None),
+                          "build_seed": sources[r["source"]].get("build_seed", 0), "events": r["events"][: (m or 0) + 3], "tlc_tail": tail[-800:]})
         # instrumentation sanity: the shadow image built from the recorded payloads must equal the final image
         for r in results:
             if r["events"] and not r.get("shadow_matches", True):
@@ -298,22 +479,37 @@ def run(tier):
                             vd.violation("crashimg|%s|%s" % (r["profile"], r["request"]),
                                          "crash image of resize2fs %s on %s (cut %d) is modified, carries no error flag, and e2fsck -p treats it as clean" % (r["request"], r["profile"], x["cut"]), x)
         ev.cov["crash_images_rebuilt_runs"] = nfault
-        main_done = main_clause(b, results, work)
-        ml = [json.dumps({"e": "resize", "rc": r["rc"] if r["rc"] in (0, 1) else 2, "reported": r["reported"], "nothing": r["nothing"], "new_blocks": r["new_blocks"],
-                          "errflag": r["errflag"], "unchanged": r["unchanged"], "fsck": r["fsck"], "consistent": r["consistent"], "tree_equal": r["tree_equal"]}) for r in results]
-        mres = tracecheck.validate_lines(ml, os.path.join(SPEC, "Trace_Resize.tla"), os.path.join(SPEC, "Trace_Resize.cfg"), work, chunk=400)
-        if mres["broken"]:
-            die_broken("TLC failed on Trace_Resize: %s\n%s" % (mres["broken"][0]["error"], mres["broken"][0]["tail"][-1200:]))
+        # ---- main clause: independent reader + TLC on every successful run, then the line oracle
+        n_eval = main_clause(sources, results, ev)
+        for r in results:
+            attach_facts(sources, r)
+        ml = [line_of(r) for r in results] + [json.dumps({"e": "end"})]
+        mres = run_lines(ml, work, "main.ndjson")
         ev.cov["states"] += mres["distinct"]; ev.cov["transitions"] += mres["generated"]
         for i in mres["bad"]:
             r = results[i]
             why = ("e2fsck -fn exit %d after a successful resize: %s" % (r["fsck"], r["fsck_out"][-120:])) if (r["rc"] == 0 and r["reported"] > 0 and r["fsck"] != 0) else \
                   ("size %d differs from the reported %d" % (r["new_blocks"], r["reported"])) if (r["rc"] == 0 and r["reported"] > 0 and r["new_blocks"] != r["reported"]) else \
-                  ("independent oracle: inconsistent or a file changed (consistent=%s tree_equal=%s)" % (r["consistent"], r["tree_equal"])) if r["rc"] == 0 and r["reported"] > 0 else \
+                  ("independent reader: %s (Ext4Abs: consistent=%s failed=%s tree_equal=%s)" % ("a file changed" if r["tree_equal"] == 0 else "result inconsistent", r["consistent"], r.get("failed"), r["tree_equal"])) if r["rc"] == 0 and r["reported"] > 0 else \
                   "a refused / no-op request changed the filesystem (rc=%s, error flag %s)" % (r["rc"], r["errflag"])
             vd.violation("main|%s|%s" % (r["profile"], r["request"]), "resize2fs %s on %s: %s" % (r["request"], r["profile"], why),
-                         {"profile": r["profile"], "kind": r["kind"], "request": r["request"], "facts": {k: r[k] for k in ("rc", "reported", "new_blocks", "fsck", "unchanged", "errflag", "consistent", "tree_equal")}, "msg": r["msg"]})
-        ev.cov["main_clause_lines"] = len(ml)
+                         {"profile": r["profile"], "kind": r["kind"], "request": r["request"], "cat": r.get("cat", ""), "witness": next((c for c in catalogue if c["mark"] == r.get("cat")), None), "build_seed": sources[r["source"]].get("build_seed", 0),
+                          "facts": {k: r[k] for k in ("rc", "reported", "new_blocks", "fsck", "unchanged", "errflag", "consistent", "tree_equal")}, "failed": r.get("failed"), "msg": r["msg"]})
+        if mres["badpred"]:
+            r = results[mres["badpred"][0]]
+            die_broken("ResizeOps!MustMoveIt predicts inode tables to move that resize2fs %s on %s left in place (moved groups: %s): the layout specification does not describe this image" % (r["request"], r["profile"], r.get("moved")))
+        # coverage of the catalogue: decided by TLC (MISSING); a catalogue run that VIOLATES the property is reported above and is not a coverage failure
+        violated_cats = {results[i].get("cat") for i in mres["bad"]} | {results[owners[bi]].get("cat") for bi in seen}
+        if mres["missing"]:
+            miss = set(re.findall(r'"([^"]+)"', mres["missing"][0])) - violated_cats
+            if miss:
+                why = {r["cat"]: "rc=%s reported=%s consistent=%s tree_equal=%s %s" % (r["rc"], r["reported"], r["consistent"], r["tree_equal"], r["msg"][-160:].replace("\n", " ")) for r in results if r.get("cat") in miss}
+                die_broken("boundary catalogue elements not realised by a successful, fully evaluated run: %s" % json.dumps(why)[:1500])
+        marks_by_base = sorted({m for i, ms in mres["marks"].items() if not results[i].get("cat") for m in ms})
+        ev.cov["boundary_catalogue"] = {"elements": sorted(c["mark"] for c in catalogue), "built_guarded_and_realised": sorted(set(c["mark"] for c in catalogue) - violated_cats),
+                                        "also_reached_by_base_profiles": marks_by_base,
+                                        "runs_that_relocated_inode_tables": sum(1 for r in results if r.get("moved"))}
+        ev.cov["main_clause_lines"] = len(ml) - 1
         ok_runs = [r for r in results if r["rc"] == 0 and r["reported"] > 0]
         ev.cov["evaluations"] = len(results)
         ev.cov["runs_succeeded"] = len(ok_runs)
@@ -322,16 +518,21 @@ def run(tier):
         for r in results:
             if r["n_out"] > 0:
                 ev.nontrivial((r["profile"], r["request"]))
-        ev.cov["rule"] = ("base images (14 feature profiles, rich content) x target sizes (group boundaries +-1, +57, 2x, 3.5x, min+1, -M); "
-                          "non-trivial = run that issued at least one modifying write outside the primary superblock; distinct by (profile, request)")
-        ev.cov["main_clause"] = "evaluated with the independent reader" if main_done else "not evaluated in this run (crash clause only)"
+        ev.cov["rule"] = ("base images (14 feature profiles, rich content) x target sizes (group boundaries +-1, +57, 2x, 3.5x, min+1, -M, refused requests) + one image per "
+                          "element of the boundary catalogue of Resize.tla (built with mke2fs + debugfs, shape decided by TLC on the independent reader's facts before the run) "
+                          "x the request of the witness (shrink / grow / -b / -s); "
+                          "non-trivial = run that issued at least one modifying write outside the primary superblock; distinct by (source image, request)")
+        ev.cov["main_clause"] = "evaluated with the independent reader on %d of %d successful runs (the rest: unknown, see main_clause_unknown)" % (n_eval, len(ok_runs))
         ev.cov["base_profiles_skipped"] = skipped
-        for r in results[:3]:
-            ev.sample({"profile": r["profile"], "request": r["request"], "rc": r["rc"], "reported": r["reported"], "device_events": len(r["events"]),
+        for r in results[:2] + [r for r in results if r.get("cat")][:3]:
+            ev.sample({"profile": r["profile"], "request": r["request"], "rc": r["rc"], "reported": r["reported"], "device_events": len(r["events"]), "catalogue_element": r.get("cat", ""),
+                       "consistent": r["consistent"], "tree_equal": r["tree_equal"], "inode_tables_moved": r.get("moved", []),
                        "first_events": [{k: e[k] for k in ("e", "k", "flag")} for e in r["events"][:8]]})
         ev.assumptions = ["a write counts as a modification only if it changes bytes outside the primary superblock's 1024 bytes (time stamps inside the superblock are not modifications)",
-                          "bytes beyond the end of the filesystem that the on-disk superblock describes (old size) are not part of the filesystem: writes there, ftruncate and fallocate of the backing file are not modifications",
-                          "crash model: any subset of the writes issued since the last completed fsync may be lost"]
+                          "bytes beyond the end of the filesystem that the on-disk superblock describes are not part of the filesystem: writes there, ftruncate and fallocate of the backing file are not modifications; the end follows the largest size a superblock write of the run has announced so far",
+                          "crash model: any subset of the writes issued since the last completed fsync may be lost",
+                          "tree = the independent reader's namespace projection (path, type, size, mode, uid, gid, nlink, mtime, xattrs, content digest; inode numbers and ctime are not part of it: resize2fs renumbers inodes of dropped groups and stamps their ctime)",
+                          "an image the independent reader cannot judge (fatal / unsupported feature / source image not Consistent in its eyes) is unknown, never a verdict; catalogue images must be judged (CHECK-BROKEN otherwise)"]
         for r in results:
             try: os.unlink(r["img"])
             except OSError: pass
@@ -346,19 +547,27 @@ def replay(path):
     work = fast_tmp()
     try:
         b = build.build()
-        basedir, meta = mkbase.base_images(b)
-        src = os.path.join(basedir, rp["profile"] + ".img")
         kind = rp.get("kind", "-M" if rp["request"] == "-M" else "size")
-        val = 0 if kind == "-M" else int(rp["request"].split()[-1])
-        r = one((b, rp["profile"], src, kind, val, work, 0, False))
+        val = 0 if kind in ("-M", "conv64", "conv32") else int(rp["request"].split()[-1])
+        if rp.get("cat"):
+            src = os.path.join(work, "cat.img")
+            req = c08_shapes.build(b, rp["witness"], src, random.Random(rp.get("build_seed", 0.5)))
+            kind, val = req["kind"], req["val"]
+        else:
+            basedir, meta = mkbase.base_images(b)
+            src = os.path.join(basedir, rp["profile"] + ".img")
+        sources = {rp["profile"]: {"img": src, "P0": ext4read.project(src)}}
+        sources[rp["profile"]]["F"] = c08_shapes.Facts(sources[rp["profile"]]["P0"])
+        r = one((b, rp["profile"], src, kind, val, work, 0, False, rp.get("cat", "")))
         beh = [json.dumps({k: e[k] for k in ("e", "k", "flag", "err0")}) for e in r["events"]]
         rej, m, inv, tail, _ = tracecheck.confirm(beh, os.path.join(SPEC, "Trace_ResizeCrash.tla"), os.path.join(SPEC, "Trace_ResizeCrash.cfg"), work)
-        print("resize2fs %s on %s: rc=%s, %d device events" % (rp["request"], rp["profile"], r["rc"], len(beh)))
-        ml = [json.dumps({"e": "resize", "rc": r["rc"] if r["rc"] in (0, 1) else 2, "reported": r["reported"], "nothing": r["nothing"], "new_blocks": r["new_blocks"],
-                          "errflag": r["errflag"], "unchanged": r["unchanged"], "fsck": r["fsck"], "consistent": r["consistent"], "tree_equal": r["tree_equal"]})]
-        mres = tracecheck.validate_lines(ml, os.path.join(SPEC, "Trace_Resize.tla"), os.path.join(SPEC, "Trace_Resize.cfg"), work)
-        print(ml[0])
-        if mres["bad"] or mres["broken"]:
+        print("resize2fs %s on %s: rc=%s, %d device events" % (r["request"], rp["profile"], r["rc"], len(beh)))
+        ev = Evidence(PID, "replay", "model_checking")
+        main_clause(sources, [r], ev)
+        attach_facts(sources, r)
+        mres = run_lines([line_of(r)], work, "replay.ndjson")
+        print({k: r[k] for k in ("rc", "reported", "new_blocks", "fsck", "unchanged", "errflag", "consistent", "tree_equal")}, r.get("failed"), "moved", r.get("moved"))
+        if mres["bad"]:
             print("VIOLATION property=%s replay=%s" % (PID, path)); return 1
         if rej:
             print(tail[-800:]); print("VIOLATION property=%s replay=%s" % (PID, path)); return 1
